@@ -57,9 +57,6 @@ structure Dir where
 structure Cfg where
   sourceless : Bool
   recursive : Bool
-  /-- which look-ahead the file-name regexes have: `false` = `(?!\.\#|__init__)` (the pinned
-      tree), `true` = `(?!\.\#|__init__\.)` (repaired); see `lookaheadRejects` -/
-  initDot : Bool := false
 deriving Repr
 
 /-- the directories of a forest in `os.walk(topdown=True)` order -/
@@ -121,7 +118,7 @@ deriving Repr, DecidableEq
     and (for `.pyc`/`.pyo`) is there no preferred sibling?
     `py_exists or is_o and pyc_exists` → `return None`. -/
 def accepts (fs : FS) (cfg : Cfg) (n : Nat) : Bool :=
-  match matchRevFile cfg.initDot cfg.sourceless (fs.node n).name with
+  match matchRevFile cfg.sourceless (fs.node n).name with
   | none => false
   | some (py, kind) =>
     let pyExists := fs.exists_ (fs.node n).dir py
